@@ -125,8 +125,12 @@ Definition cumulative (prod skipna : bool) (r : axref) (a : darr) : res darr :=
   let n := nth i (sh (vals a)) 0 in
   Ok (mkarr (axes a) (np_along (cum_kind (kd (vals a))) n (cum_fibre prod skipna) i (vals a)) (attrs a)).
 
+(* NumPy: the difference of two booleans is "they differ" (not_equal), still a boolean *)
 Definition diff_cell (x y : cell) : cell :=
-  match cell_q x, cell_q y with Some a, Some b => CNum (b - a) | _, _ => CNaN end.
+  match x, y with
+  | CBool a, CBool b => CBool (xorb a b)
+  | _, _ => match cell_q x, cell_q y with Some a, Some b => CNum (b - a) | _, _ => CNaN end
+  end.
 Fixpoint diff_fibre (l : list cell) : list cell :=
   match l with
   | x :: ((y :: _) as t) => diff_cell x y :: diff_fibre t
@@ -139,6 +143,9 @@ Definition midpoints (ls : list label) : res (list label) :=
                   | [_] | [] => Ok []
                   | _ => Err TypeError
                   end in go ls.
+(* with keepaxis a boolean difference is padded with NaN and so becomes a float array: True / False turn into 1.0 / 0.0 *)
+Definition cell_num (c : cell) : cell := match c with CBool b => CNum (if b then 1 else 0) | _ => c end.
+Definition pad_num (k : kind) (l : list cell) : list cell := match k with KB => map cell_num l | _ => l end.
 (* one differencing step *)
 Definition diff1 (sc : scheme) (keepaxis : bool) (i : nat) (a : darr) : res darr :=
   let ax := nth i (axes a) dax0 in
@@ -154,7 +161,7 @@ Definition diff1 (sc : scheme) (keepaxis : bool) (i : nat) (a : darr) : res darr
       if keepaxis then
         let first := match sc with Backward => true | _ => false end in
         let k := match kd v with KI | KB => KF | k => k end in
-        let padded := np_along k n (fun f => if first then CNaN :: diff_fibre f else diff_fibre f ++ [CNaN]) i v in
+        let padded := np_along k n (fun f => pad_num (kd v) (if first then CNaN :: diff_fibre f else diff_fibre f ++ [CNaN])) i v in
         (* an empty axis: one NaN slice is appended to nothing and no longer fits the axis *)
         if n =? 0 then Err OtherError else Ok (mkarr (axes a) padded (attrs a))
       else
